@@ -46,6 +46,10 @@ INTS = [0, 1, -1, 7, 10, -42, 255, 2**31, -(2**63), 10**30, 100]
 # ---------------------------------------------------------------------------
 def gen_str(rng):
     r = rng.random()
+    if r < 0.05:
+        lits = [x for x in core.source_literals() if len(x) > 2]
+        if lits:
+            return rng.choice(lits)
     if r < 0.3:
         return rng.choice(WORDS)
     n = rng.choice([0, 1, 1, 2, 3, 5])
